@@ -35,11 +35,11 @@ RetListen(h) == IF sk[h].closed THEN ClosedRule(h) /\ UNCHANGED kvars
 RetConnect(h) == LET L == pend[h].a IN
     IF sk[h].closed THEN ClosedRule(h) /\ UNCHANGED kvars
     ELSE IF sk[h].blocking
-         THEN /\ Ev.ok = 1 /\ Upd(h, [sk[h] EXCEPT !.conn = TRUE])
+         THEN /\ Ev.ok = 1 /\ Upd(h, [sk[h] EXCEPT !.conn = TRUE, !.via = L])
               /\ queue' = [queue EXCEPT ![L] = Append(@, h)] /\ UNCHANGED <<sent, rcvd, dg>>
          ELSE /\ (LIFE => Ev.npoll = 0)
-              /\ \/ Ev.ok = 1 /\ Upd(h, [sk[h] EXCEPT !.conn = TRUE])
-                 \/ Ev.ok = 0 /\ Ev.err \in {InProgress, WouldBlock} /\ UNCHANGED sk
+              /\ \/ Ev.ok = 1 /\ Upd(h, [sk[h] EXCEPT !.conn = TRUE, !.via = L])
+                 \/ Ev.ok = 0 /\ Ev.err \in {InProgress, WouldBlock} /\ Upd(h, [sk[h] EXCEPT !.via = L])
               /\ queue' = [queue EXCEPT ![L] = Append(@, h)] /\ UNCHANGED <<sent, rcvd, dg>>
 (* connect to a listener whose accept queue is full and that nobody drains: TRUE only for a connection the OS reports as     *)
 (* established; otherwise a blocking socket with timeout T fails with the timed-out error not before T and stays unconnected. *)
@@ -99,6 +99,24 @@ RetSet(h) == LET r == sk[h]  v == pend[h].a IN
          [] pend[h].s = "timeout" -> RetSimple(h, [r EXCEPT !.timeout = IF v < 0 THEN 0 ELSE v])
          [] pend[h].s = "keepalive" -> RetSimple(h, IF r.closed THEN r ELSE [r EXCEPT !.keepalive = (v # 0)])
          [] pend[h].s = "backlog" -> RetSimple(h, IF r.listening THEN r ELSE [r EXCEPT !.backlog = v])
+(* completion of a non-blocking connect: once the kernel reports the socket writable the result is read; from then on the socket is connected *)
+RetCcr(h) == IF sk[h].via # 0 /\ sk[sk[h].via].ex /\ sk[sk[h].via].listening /\ ~sk[sk[h].via].closed
+             THEN Ev.ok = 1 /\ RetSimple(h, [sk[h] EXCEPT !.conn = TRUE])
+             ELSE UNCHANGED kvars
+(* the public wait: writable at once on a connected stream or a datagram socket; readable when something can be read / accepted, else it
+   runs out of time like every timed call *)
+Readable(h) == Avail(h) > 0 \/ PeerGone(h) \/ queue[h] # <<>> \/ dg[h] # {}
+RetIoWait(h) == IF sk[h].closed THEN ClosedRule(h) /\ UNCHANGED kvars
+                ELSE /\ IF pend[h].a = 2 THEN Ev.ok = 1
+                        ELSE IF Readable(h) THEN (Ev.ok = 1 \/ (sk[h].timeout > 0 /\ Ev.ok = 0 /\ Ev.err = TimedOut /\ TimeoutRule(sk[h])))
+                        ELSE Ev.ok = 0 /\ Ev.err = TimedOut /\ TimeoutRule(sk[h])
+                     /\ UNCHANGED kvars
+(* local and remote address: the local port is the one the socket was bound / connected with, the remote address names the peer *)
+RetAddrs(h) == IF sk[h].closed THEN UNCHANGED kvars
+               ELSE /\ Ev.id = 1
+                    /\ (sk[h].conn /\ ~sk[h].udp /\ sk[h].peer # 0 /\ sk[h].via = 0) => Ev.from = sk[h].peer        \* accepted socket: the client
+                    /\ (sk[h].conn /\ ~sk[h].udp /\ sk[h].via # 0) => Ev.from = sk[h].via                          \* client: the listener's address
+                    /\ UNCHANGED kvars
 RetShutdown(h) == IF sk[h].closed THEN ClosedRule(h) /\ UNCHANGED kvars
                   ELSE /\ Ev.ok = 1
                        /\ RetSimple(h, [sk[h] EXCEPT !.wclosed = (@ \/ pend[h].b # 0), !.conn = IF pend[h].a # 0 /\ pend[h].b # 0 THEN FALSE ELSE @])
@@ -113,6 +131,8 @@ TrRet == /\ IsEvent("sret") /\ Consume
                  [] Ev.op = "send" -> RetSend(h) [] Ev.op = "recv" -> RetRecv(h) [] Ev.op = "sendto" -> RetSendTo(h)
                  [] Ev.op = "recvfrom" -> RetRecvFrom(h) [] Ev.op = "set" -> RetSet(h) [] Ev.op = "shutdown" -> RetShutdown(h)
                  [] Ev.op = "close" -> RetClose(h) [] Ev.op = "free" -> RetFree(h) [] Ev.op = "getters" -> UNCHANGED kvars
+                 [] Ev.op = "ccr" -> RetCcr(h) [] Ev.op = "iowait" -> RetIoWait(h) [] Ev.op = "addrs" -> RetAddrs(h)
+                 [] Ev.op = "bufsize" -> (Ev.ok = 1 /\ UNCHANGED kvars)
             (* the getters always reflect the calls made so far *)
             /\ (LIFE /\ Ev.op # "free" /\ Ev.g # <<>> /\ sk'[h].ex) => Ev.g = Getters(sk'[h])
             /\ pend' = [pend EXCEPT ![h] = NoCall]
